@@ -39,7 +39,7 @@ func writeManifest() {
 			Level: level{Category: "other", Text: p.LevelText, DesignRef: p.DesignRef}, LevelNote: p.LevelNote, Technique: p.Technique,
 		})
 	}
-	var nas []na
+	nas := []na{}
 	for id, reason := range props.NA {
 		if props.All[id] == nil {
 			nas = append(nas, na{id, reason})
